@@ -105,7 +105,7 @@ PROPS['C07'] = dict(level='model_checking',
    [H('timerq_n%d_c%d' % (n, c), 'C07_timerq.cpp', ['h_worker', 'h_main'], 44, tier='deep', timeout=2400, opts=dict(params=[n, c], thread_of_body={'0': 0}), desc='timed_single_thread_context: %d timers with symbolic due times%s' % (n, ', last one cancelled' if c else '')) for n in (2,) for c in (0, 1)] +
    [H('timer_race_due%d_stop%d' % (d, c), 'C07_timer_race.cpp', ['h_worker', 'h_main'], 40, opts=dict(params=[d, c], thread_of_body={'0': 0}), desc='timed_single_thread_context: start() of a timer due at %d racing the timer thread%s (minimal outer stop source; receiver frees the op)' % (d, ', then a stop request' if c else '')) for d in (0,) for c in (0, 1)] +
    [H('timer_race_due50_stop1', 'C07_timer_race.cpp', ['h_worker', 'h_main'], 40, tier='thorough', timeout=2400, opts=dict(params=[50, 1], thread_of_body={'0': 0}), desc='timed_single_thread_context: timer due at 50 started, then a stop request races the timer thread')] +
-   [H('timerq_seq_n3_c%d%s' % (c, '_enum' if e else ''), 'C07_timerq.cpp', [], 0, setup='h_seq', final='h_final', tier=('quick' if e else 'thorough'), timeout=(900 if e else 2400), opts=dict(params=[3, c, 1, e], feas=1, feas_at=12, max_visits=200), desc='timed_single_thread_context, sequential: 3 timers with ' + ('due times from {0,16,32,48}' if e else 'symbolic 8-bit due times') + ' started in order%s, then the run loop executes them (clock jumps to deadlines)' % (', timer %d cancelled first' % (c - 1) if c else '')) for c in (0, 1, 2, 3) for e in (1, 0)])
+   [H('timerq_seq_n3_c%d%s' % (c, '_enum' if e else ''), 'C07_timerq.cpp', [], 0, setup='h_seq', final='h_final', tier=('quick' if e else 'deep' if c == 0 else 'thorough'), timeout=(900 if e else 2400), opts=dict(params=[3, c, 1, e], feas=1, feas_at=12, max_visits=200), desc='timed_single_thread_context, sequential: 3 timers with ' + ('due times from {0,16,32,48}' if e else 'symbolic 8-bit due times') + ' started in order%s, then the run loop executes them (clock jumps to deadlines)' % (', timer %d cancelled first' % (c - 1) if c else '')) for c in (0, 1, 2, 3) for e in (1, 0)])
 
 PROPS['C18'] = dict(level='model_checking',
   bounds='any_object: every sequence of 3 operations out of 8 (construct small/large/throwing-move, move-assign, move-construct, copy-assign small/large, destroy) enumerated as harness parameters; values and the throwing-copy position symbolic',
@@ -208,6 +208,9 @@ PROPS['C14']['harnesses'] += EPOLL14
 PROPS['C07']['harnesses'] += EPOLL
 PROPS['C10']['harnesses'] += [H('task_stop_race_o%d' % o, 'C10_race.cpp', ['h_complete', 'h_stop'], 70, std='c++20', exc=True, extra=['$REPO/source/async_stack.cpp'], tier='deep', timeout=7200,
    opts=dict(params=[o], max_rec=8, max_visits=60, prune_budget=5000), desc='task<int> with a stoppable receiver: awaited leaf completes with %s on one thread while a stop request arrives on another (stop-request thunk join)' % ['value', 'error', 'done'][o]) for o in (0, 2)]
+PROPS['C20']['harnesses'] += [H('handoff_race_' + cfgname('c++20', defs), 'C20_race.cpp', ['h_start', 'h_resume'], (100 if 'UNDEBUG' in defs else 60), std='c++20', exc=True, defs=defs, extra=['$REPO/source/async_stack.cpp'], timeout=(7200 if 'UNDEBUG' in defs else 900), tier=('deep' if 'UNDEBUG' in defs else 'quick'),
+   opts=dict(max_rec=8, max_visits=60), desc='task<int> awaiting a bool-await_suspend awaitable that is resumed on another thread while the suspending thread is still inside await_suspend, ' + ' '.join(defs)) for defs in (['UNDEBUG'], ['NDEBUG'])]
+PROPS['C10']['harnesses'] += [h for h in PROPS['C20']['harnesses'] if h['name'].startswith('handoff_race')]
 # cross-registration: harnesses whose assertions also decide clauses of other properties
 PROPS['C04']['harnesses'] += [h for h in PROPS['C01']['harnesses'] if h['name'] in ('wa_race_min', 'sw_race_min')]
 PROPS['C05']['harnesses'] += [h for h in PROPS['C04']['harnesses'] if h['name'] == 'wa_inline_cancel'] + \
